@@ -73,3 +73,114 @@ pub open spec fn is_stock_builder<ExecC, QueryC>(r: AppBuilder<BankKeeper, MockA
 //@   begin proof { axiom_mock_env_block(); }
 //@ end
 }
+
+// ---- the stock components as router components: opaque semantics (uninterpreted), so that `AppBuilder::new().build(f)`
+// type-checks in this group.  Nothing here says what the stock modules DO (groups bank, staking_*, wasm_*, module_defaults).
+impl Api for MockApi {
+    #[verifier::external_body] fn addr_validate(&self, human: &str) -> (r: StdResult<Addr>) { unimplemented!() }
+    #[verifier::external_body] fn addr_canonicalize(&self, human: &str) -> (r: StdResult<CanonicalAddr>) { unimplemented!() }
+    #[verifier::external_body] fn addr_humanize(&self, canonical: &CanonicalAddr) -> (r: StdResult<Addr>) { unimplemented!() }
+}
+impl Storage for MockStorage {
+    uninterp spec fn view(&self) -> St;
+    #[verifier::external_body] fn get(&self, key: &[u8]) -> (r: Option<Vec<u8>>) { unimplemented!() }
+    #[verifier::external_body] fn range<'a>(&'a self, start: Option<&[u8]>, end: Option<&[u8]>, order: Order) -> (r: RecordIter<'a>) { unimplemented!() }
+    #[verifier::external_body] fn set(&mut self, key: &[u8], value: &[u8]) { unimplemented!() }
+    #[verifier::external_body] fn remove(&mut self, key: &[u8]) { unimplemented!() }
+}
+impl Module for BankKeeper {
+    type ExecT = BankMsg;
+    type QueryT = BankQuery;
+    type SudoT = BankSudo;
+    uninterp spec fn exec_sem<ExecC, QueryC>(&self, router: &dyn CosmosRouter<ExecC, QueryC>, pre: St, block: BlockInfo, sender: Addr, msg: Self::ExecT) -> (AnyResult<AppResponse>, St);
+    uninterp spec fn query_sem(&self, qsnap: (St, BlockInfo), st: St, block: BlockInfo, request: Self::QueryT) -> AnyResult<Binary>;
+    uninterp spec fn sudo_sem<ExecC, QueryC>(&self, router: &dyn CosmosRouter<ExecC, QueryC>, pre: St, block: BlockInfo, msg: Self::SudoT) -> (AnyResult<AppResponse>, St);
+    #[verifier::external_body] fn execute<ExecC, QueryC>(&self, api: &dyn Api, storage: &mut dyn Storage, router: &dyn CosmosRouter<ExecC, QueryC>, block: &BlockInfo, sender: Addr, msg: Self::ExecT) -> (r: AnyResult<AppResponse>) { unimplemented!() }
+    #[verifier::external_body] fn query(&self, api: &dyn Api, storage: &dyn Storage, querier: &dyn Querier, block: &BlockInfo, request: Self::QueryT) -> (r: AnyResult<Binary>) { unimplemented!() }
+    #[verifier::external_body] fn sudo<ExecC, QueryC>(&self, api: &dyn Api, storage: &mut dyn Storage, router: &dyn CosmosRouter<ExecC, QueryC>, block: &BlockInfo, msg: Self::SudoT) -> (r: AnyResult<AppResponse>) { unimplemented!() }
+}
+impl Module for StakeKeeper {
+    type ExecT = StakingMsg;
+    type QueryT = StakingQuery;
+    type SudoT = StakingSudo;
+    uninterp spec fn exec_sem<ExecC, QueryC>(&self, router: &dyn CosmosRouter<ExecC, QueryC>, pre: St, block: BlockInfo, sender: Addr, msg: Self::ExecT) -> (AnyResult<AppResponse>, St);
+    uninterp spec fn query_sem(&self, qsnap: (St, BlockInfo), st: St, block: BlockInfo, request: Self::QueryT) -> AnyResult<Binary>;
+    uninterp spec fn sudo_sem<ExecC, QueryC>(&self, router: &dyn CosmosRouter<ExecC, QueryC>, pre: St, block: BlockInfo, msg: Self::SudoT) -> (AnyResult<AppResponse>, St);
+    #[verifier::external_body] fn execute<ExecC, QueryC>(&self, api: &dyn Api, storage: &mut dyn Storage, router: &dyn CosmosRouter<ExecC, QueryC>, block: &BlockInfo, sender: Addr, msg: Self::ExecT) -> (r: AnyResult<AppResponse>) { unimplemented!() }
+    #[verifier::external_body] fn query(&self, api: &dyn Api, storage: &dyn Storage, querier: &dyn Querier, block: &BlockInfo, request: Self::QueryT) -> (r: AnyResult<Binary>) { unimplemented!() }
+    #[verifier::external_body] fn sudo<ExecC, QueryC>(&self, api: &dyn Api, storage: &mut dyn Storage, router: &dyn CosmosRouter<ExecC, QueryC>, block: &BlockInfo, msg: Self::SudoT) -> (r: AnyResult<AppResponse>) { unimplemented!() }
+}
+impl Module for DistributionKeeper {
+    type ExecT = DistributionMsg;
+    type QueryT = Empty;
+    type SudoT = Empty;
+    uninterp spec fn exec_sem<ExecC, QueryC>(&self, router: &dyn CosmosRouter<ExecC, QueryC>, pre: St, block: BlockInfo, sender: Addr, msg: Self::ExecT) -> (AnyResult<AppResponse>, St);
+    uninterp spec fn query_sem(&self, qsnap: (St, BlockInfo), st: St, block: BlockInfo, request: Self::QueryT) -> AnyResult<Binary>;
+    uninterp spec fn sudo_sem<ExecC, QueryC>(&self, router: &dyn CosmosRouter<ExecC, QueryC>, pre: St, block: BlockInfo, msg: Self::SudoT) -> (AnyResult<AppResponse>, St);
+    #[verifier::external_body] fn execute<ExecC, QueryC>(&self, api: &dyn Api, storage: &mut dyn Storage, router: &dyn CosmosRouter<ExecC, QueryC>, block: &BlockInfo, sender: Addr, msg: Self::ExecT) -> (r: AnyResult<AppResponse>) { unimplemented!() }
+    #[verifier::external_body] fn query(&self, api: &dyn Api, storage: &dyn Storage, querier: &dyn Querier, block: &BlockInfo, request: Self::QueryT) -> (r: AnyResult<Binary>) { unimplemented!() }
+    #[verifier::external_body] fn sudo<ExecC, QueryC>(&self, api: &dyn Api, storage: &mut dyn Storage, router: &dyn CosmosRouter<ExecC, QueryC>, block: &BlockInfo, msg: Self::SudoT) -> (r: AnyResult<AppResponse>) { unimplemented!() }
+}
+impl<ExecT, QueryT, SudoT> Module for FailingModule<ExecT, QueryT, SudoT> {
+    type ExecT = ExecT;
+    type QueryT = QueryT;
+    type SudoT = SudoT;
+    uninterp spec fn exec_sem<ExecC, QueryC>(&self, router: &dyn CosmosRouter<ExecC, QueryC>, pre: St, block: BlockInfo, sender: Addr, msg: Self::ExecT) -> (AnyResult<AppResponse>, St);
+    uninterp spec fn query_sem(&self, qsnap: (St, BlockInfo), st: St, block: BlockInfo, request: Self::QueryT) -> AnyResult<Binary>;
+    uninterp spec fn sudo_sem<ExecC, QueryC>(&self, router: &dyn CosmosRouter<ExecC, QueryC>, pre: St, block: BlockInfo, msg: Self::SudoT) -> (AnyResult<AppResponse>, St);
+    #[verifier::external_body] fn execute<ExecC, QueryC>(&self, api: &dyn Api, storage: &mut dyn Storage, router: &dyn CosmosRouter<ExecC, QueryC>, block: &BlockInfo, sender: Addr, msg: Self::ExecT) -> (r: AnyResult<AppResponse>) { unimplemented!() }
+    #[verifier::external_body] fn query(&self, api: &dyn Api, storage: &dyn Storage, querier: &dyn Querier, block: &BlockInfo, request: Self::QueryT) -> (r: AnyResult<Binary>) { unimplemented!() }
+    #[verifier::external_body] fn sudo<ExecC, QueryC>(&self, api: &dyn Api, storage: &mut dyn Storage, router: &dyn CosmosRouter<ExecC, QueryC>, block: &BlockInfo, msg: Self::SudoT) -> (r: AnyResult<AppResponse>) { unimplemented!() }
+}
+impl Bank for BankKeeper {}
+impl Distribution for DistributionKeeper {}
+impl Ibc for IbcFailingModule {}
+impl Gov for GovFailingModule {}
+impl Staking for StakeKeeper {
+    uninterp spec fn queue_sem<ExecC, QueryC>(&self, router: &dyn CosmosRouter<ExecC, QueryC>, pre: St, block: BlockInfo) -> (AnyResult<AppResponse>, St);
+    #[verifier::external_body] fn process_queue<ExecC, QueryC>(&self, api: &dyn Api, storage: &mut dyn Storage, router: &dyn CosmosRouter<ExecC, QueryC>, block: &BlockInfo) -> (r: AnyResult<AppResponse>) { unimplemented!() }
+}
+impl Stargate for StargateFailing {
+    uninterp spec fn stargate_sem<ExecC, QueryC>(&self, router: &dyn CosmosRouter<ExecC, QueryC>, pre: St, block: BlockInfo, sender: Addr, type_url: String, value: Binary) -> (AnyResult<AppResponse>, St);
+    uninterp spec fn any_sem<ExecC, QueryC>(&self, router: &dyn CosmosRouter<ExecC, QueryC>, pre: St, block: BlockInfo, sender: Addr, msg: AnyMsg) -> (AnyResult<AppResponse>, St);
+    uninterp spec fn query_stargate_sem(&self, qsnap: (St, BlockInfo), st: St, block: BlockInfo, path: String, data: Binary) -> AnyResult<Binary>;
+    uninterp spec fn query_grpc_sem(&self, qsnap: (St, BlockInfo), st: St, block: BlockInfo, request: GrpcQuery) -> AnyResult<Binary>;
+    #[verifier::external_body] fn execute_stargate<ExecC, QueryC>(&self, api: &dyn Api, storage: &mut dyn Storage, router: &dyn CosmosRouter<ExecC, QueryC>, block: &BlockInfo, sender: Addr, type_url: String, value: Binary) -> (r: AnyResult<AppResponse>) { unimplemented!() }
+    #[verifier::external_body] fn execute_any<ExecC, QueryC>(&self, api: &dyn Api, storage: &mut dyn Storage, router: &dyn CosmosRouter<ExecC, QueryC>, block: &BlockInfo, sender: Addr, msg: AnyMsg) -> (r: AnyResult<AppResponse>) { unimplemented!() }
+    #[verifier::external_body] fn query_stargate(&self, api: &dyn Api, storage: &dyn Storage, querier: &dyn Querier, block: &BlockInfo, path: String, data: Binary) -> (r: AnyResult<Binary>) { unimplemented!() }
+    #[verifier::external_body] fn query_grpc(&self, api: &dyn Api, storage: &dyn Storage, querier: &dyn Querier, block: &BlockInfo, request: GrpcQuery) -> (r: AnyResult<Binary>) { unimplemented!() }
+}
+impl<ExecC, QueryC> Wasm<ExecC, QueryC> for WasmKeeper<ExecC, QueryC> {
+    uninterp spec fn exec_sem(&self, router: &dyn CosmosRouter<ExecC, QueryC>, pre: St, block: BlockInfo, sender: Addr, msg: WasmMsg) -> (AnyResult<AppResponse>, St);
+    uninterp spec fn query_sem(&self, qsnap: (St, BlockInfo), st: St, block: BlockInfo, request: WasmQuery) -> AnyResult<Binary>;
+    uninterp spec fn sudo_sem(&self, router: &dyn CosmosRouter<ExecC, QueryC>, pre: St, block: BlockInfo, msg: WasmSudo) -> (AnyResult<AppResponse>, St);
+    uninterp spec fn dump_sem(&self, st: St, address: Addr) -> Seq<Record>;
+    uninterp spec fn cs_window(&self, st: St, address: Addr) -> St;
+    #[verifier::external_body] fn execute(&self, api: &dyn Api, storage: &mut dyn Storage, router: &dyn CosmosRouter<ExecC, QueryC>, block: &BlockInfo, sender: Addr, msg: WasmMsg) -> (r: AnyResult<AppResponse>) { unimplemented!() }
+    #[verifier::external_body] fn query(&self, api: &dyn Api, storage: &dyn Storage, querier: &dyn Querier, block: &BlockInfo, request: WasmQuery) -> (r: AnyResult<Binary>) { unimplemented!() }
+    #[verifier::external_body] fn sudo(&self, api: &dyn Api, storage: &mut dyn Storage, router: &dyn CosmosRouter<ExecC, QueryC>, block: &BlockInfo, msg: WasmSudo) -> (r: AnyResult<AppResponse>) { unimplemented!() }
+    #[verifier::external_body] fn dump_wasm_raw(&self, storage: &dyn Storage, address: &Addr) -> (r: Vec<Record>) { unimplemented!() }
+    #[verifier::external_body] fn contract_storage<'a>(&self, storage: &'a dyn Storage, address: &Addr) -> (r: Box<dyn Storage + 'a>) { unimplemented!() }
+    #[verifier::external_body] fn contract_storage_mut<'a>(&self, storage: &'a mut dyn Storage, address: &Addr) -> (r: Box<dyn Storage + 'a>) { unimplemented!() }
+}
+
+// ---- src/app.rs: the stock application = stock builder + build(init_fn)   (C20: "defaults for the rest ... runs the
+// initialisation function once against that storage")
+pub type BasicApp<ExecC = Empty, QueryC = Empty> = App<BankKeeper, MockApi, MockStorage, FailingModule<ExecC, QueryC, Empty>, WasmKeeper<ExecC, QueryC>, StakeKeeper, DistributionKeeper, IbcFailingModule, GovFailingModule, StargateFailing>;
+//@ fn src/app.rs :: custom_app
+//@   ret r
+//@   requires [C20.app.custom_app_pre] forall|r0: &mut Router<BankKeeper, FailingModule<ExecC, QueryC, Empty>, WasmKeeper<ExecC, QueryC>, StakeKeeper, DistributionKeeper, IbcFailingModule, GovFailingModule, StargateFailing>, a: &MockApi, st: &mut dyn Storage| #[trigger] init_fn.requires((r0, a, st))
+//@   begin proof { axiom_mock_env_block(); }
+//@   ensures [C20.app.custom_app_stock] r.api == stock_api() && same_block(r.block, spec_mock_env().block) && exists|r0: &mut Router<BankKeeper, FailingModule<ExecC, QueryC, Empty>, WasmKeeper<ExecC, QueryC>, StakeKeeper, DistributionKeeper, IbcFailingModule, GovFailingModule, StargateFailing>, a: &MockApi, st: &mut dyn Storage| #[trigger] init_fn.ensures((r0, a, st), ()) && *a == stock_api() && st.view() == stock_storage().view() && r0.wasm == stock_wasm::<ExecC, QueryC>() && r0.bank == stock_bank() && r0.custom == stock_failing::<ExecC, QueryC, Empty>() && r0.staking == stock_staking() && r0.distribution == stock_distribution() && r0.ibc == stock_failing::<IbcMsg, IbcQuery, Empty>() && r0.gov == stock_failing::<GovMsg, Empty, Empty>() && r0.stargate == StargateFailing && r.router == *final(r0) && r.storage.view() == final(st).view()
+//@   replace_re "ExecC: CustomMsg \\+ DeserializeOwned \\+ 'static,\\s*QueryC: Debug \\+ CustomQuery \\+ DeserializeOwned \\+ 'static,\\s*" => ""
+//@ end
+//@ impl_open src/app.rs :: BasicApp
+//@   pick fn new
+//@ end
+//@ fn src/app.rs :: BasicApp :: new
+//@   ret r
+//@   requires [C20.app.basic_new_pre] forall|r0: &mut Router<BankKeeper, FailingModule<Empty, Empty, Empty>, WasmKeeper<Empty, Empty>, StakeKeeper, DistributionKeeper, IbcFailingModule, GovFailingModule, StargateFailing>, a: &MockApi, st: &mut dyn Storage| #[trigger] init_fn.requires((r0, a, st))
+//@   begin proof { axiom_mock_env_block(); }
+//@   ensures [C20.app.basic_new_stock] r.api == stock_api() && same_block(r.block, spec_mock_env().block) && exists|r0: &mut Router<BankKeeper, FailingModule<Empty, Empty, Empty>, WasmKeeper<Empty, Empty>, StakeKeeper, DistributionKeeper, IbcFailingModule, GovFailingModule, StargateFailing>, a: &MockApi, st: &mut dyn Storage| #[trigger] init_fn.ensures((r0, a, st), ()) && *a == stock_api() && st.view() == stock_storage().view() && r0.wasm == stock_wasm::<Empty, Empty>() && r0.bank == stock_bank() && r0.custom == stock_failing::<Empty, Empty, Empty>() && r0.staking == stock_staking() && r0.distribution == stock_distribution() && r0.ibc == stock_failing::<IbcMsg, IbcQuery, Empty>() && r0.gov == stock_failing::<GovMsg, Empty, Empty>() && r0.stargate == StargateFailing && r.router == *final(r0) && r.storage.view() == final(st).view()
+//@ end
+}
